@@ -46,7 +46,7 @@ CAUSES["C03"] = [
 CAUSES["C04"] = [
     (("step/DCMotor.backward", "step/DCMotor.set_speed_rt", "step/history/DCMotor"),
      "a non-zero speed whose duty rounds to 0 (|speed| < 1/510) makes the firmware report mode 'coast'; the host model reports 'drive'"),
-    (("step/RGBLed.fade_2", "step/RGBLed.fade_kw", "step/history/RGBLed"),
+    (("step/RGBLed.fade_2", "step/RGBLed.fade_kw", "step/RGBLed.fade_rt", "step/RGBLed.fade_3_lit", "step/history/RGBLed"),
      "RGB fade steps that fall exactly on .5 are rounded half-up (toward +inf for the integer formula) on the device, half-to-even by the host's round()"),
 ]
 
